@@ -39,6 +39,15 @@ func (e StdEng) denseTranspose(a DenseTensor, expStrides []int) {
 	}
 }
 
+// transposeIterator walks the lazily transposed tensor in the order in which its elements
+// are to be laid out: last axis fastest for row-major tensors, first axis fastest for
+// column-major ones.
+func transposeIterator(a DenseTensor) *FlatIterator {
+	it := newFlatIterator(a.Info())
+	it.outerFirst = a.DataOrder().IsColMajor()
+	return it
+}
+
 func (e StdEng) transposeMask(a DenseTensor) {
 	if !a.(*Dense).IsMasked() {
 		return
@@ -47,7 +56,7 @@ func (e StdEng) transposeMask(a DenseTensor) {
 	orig := a.(*Dense).Mask()
 	tmp := make([]bool, len(orig))
 
-	it := newFlatIterator(a.Info())
+	it := transposeIterator(a)
 	var j int
 	for i, err := it.Next(); err == nil; i, err = it.Next() {
 		tmp[j] = orig[i]
@@ -62,7 +71,7 @@ func (e StdEng) denseTranspose1(a DenseTensor, expStrides []int) {
 	u8s := tmpArr.Uint8s()
 
 	orig := a.hdr().Uint8s()
-	it := newFlatIterator(a.Info())
+	it := transposeIterator(a)
 	var j int
 	for i, err := it.Next(); err == nil; i, err = it.Next() {
 		u8s[j] = orig[i]
@@ -77,7 +86,7 @@ func (e StdEng) denseTranspose2(a DenseTensor, expStrides []int) {
 	u16s := tmpArr.Uint16s()
 
 	orig := a.hdr().Uint16s()
-	it := newFlatIterator(a.Info())
+	it := transposeIterator(a)
 	var j int
 	for i, err := it.Next(); err == nil; i, err = it.Next() {
 		u16s[j] = orig[i]
@@ -92,7 +101,7 @@ func (e StdEng) denseTranspose4(a DenseTensor, expStrides []int) {
 	u32s := tmpArr.Uint32s()
 
 	orig := a.hdr().Uint32s()
-	it := newFlatIterator(a.Info())
+	it := transposeIterator(a)
 	var j int
 	for i, err := it.Next(); err == nil; i, err = it.Next() {
 		u32s[j] = orig[i]
@@ -107,7 +116,7 @@ func (e StdEng) denseTranspose8(a DenseTensor, expStrides []int) {
 	u64s := tmpArr.Uint64s()
 
 	orig := a.hdr().Uint64s()
-	it := newFlatIterator(a.Info())
+	it := transposeIterator(a)
 	var j int
 	for i, err := it.Next(); err == nil; i, err = it.Next() {
 		u64s[j] = orig[i]
@@ -122,7 +131,7 @@ func (e StdEng) denseTransposeString(a DenseTensor, expStrides []int) {
 	strs := tmpArr.Strings()
 
 	orig := a.hdr().Strings()
-	it := newFlatIterator(a.Info())
+	it := transposeIterator(a)
 	var j int
 	for i, err := it.Next(); err == nil; i, err = it.Next() {
 		strs[j] = orig[i]
@@ -140,7 +149,7 @@ func (e StdEng) denseTransposeArbitrary(a DenseTensor, expStrides []int) {
 	arbs := tmpArr.byteSlice()
 
 	orig := a.hdr().Raw
-	it := newFlatIterator(a.Info())
+	it := transposeIterator(a)
 	var j int
 	for i, err := it.Next(); err == nil; i, err = it.Next() {
 		srcStart := i * typeSize
